@@ -30,12 +30,15 @@ import (
 	sdk "github.com/cosmos/cosmos-sdk/types"
 	gethcommon "github.com/ethereum/go-ethereum/common"
 	gethcore "github.com/ethereum/go-ethereum/core/types"
+	"github.com/ethereum/go-ethereum/core/vm"
 	"github.com/ethereum/go-ethereum/crypto"
 
 	. "verifharness/hx"
 
 	"github.com/NibiruChain/nibiru/v2/eth"
+	"github.com/NibiruChain/nibiru/v2/x/evm/embeds"
 	"github.com/NibiruChain/nibiru/v2/x/evm/evmtest"
+	"github.com/NibiruChain/nibiru/v2/x/evm/precompile"
 	"github.com/NibiruChain/nibiru/v2/x/evm/statedb"
 )
 
@@ -146,16 +149,16 @@ type c04Input struct {
 }
 
 type c04Obs struct {
-	Accs      [][5]int64 `json:"accs"` // id, exists, unibi, nonce, code id
-	Stor      [][3]int64 `json:"stor"`
-	Logs      int        `json:"logs"`
-	Refund    uint64     `json:"refund"`
-	Al        [][2]int64 `json:"al"`  // id, in access list
-	Als       [][3]int64 `json:"als"` // id, slot, in access list
+	Accs      [][5]int64  `json:"accs"` // id, exists, unibi, nonce, code id
+	Stor      [][3]int64  `json:"stor"`
+	Logs      int         `json:"logs"`
+	Refund    uint64      `json:"refund"`
+	Al        [][2]int64  `json:"al"`    // id, in access list
+	Als       [][3]int64  `json:"als"`   // id, slot, in access list
 	Views     [][3]string `json:"views"` // id, StateDB wei, bank unibi
-	LimitErrs int        `json:"limit_errs"`
-	CommitErr string     `json:"commit_err"`
-	Panic     string     `json:"panic"`
+	LimitErrs int         `json:"limit_errs"`
+	CommitErr string      `json:"commit_err"`
+	Panic     string      `json:"panic"`
 }
 
 func addrOf(id int64) gethcommon.Address {
@@ -180,10 +183,42 @@ func codeID(code []byte) int64 {
 // ---------------------------------------------------------------- execution on the real StateDB
 
 type runner struct {
-	deps  *evmtest.TestDeps
-	ctx   sdk.Context
-	db    *statedb.StateDB
-	obs   *c04Obs
+	deps          *evmtest.TestDeps
+	ctx           sdk.Context
+	db            *statedb.StateDB
+	obs           *c04Obs
+	viaOnRunStart bool // "pc" goes through precompile.OnRunStart (the real entry point) instead of the three API calls
+}
+
+var whoAmIInput = func() []byte {
+	bz, err := embeds.SmartContract_FunToken.ABI.Pack("whoAmI", "nibi1")
+	if err != nil {
+		panic(err)
+	}
+	return bz
+}()
+
+// onRunStart prepares a precompile call: cache ctx + journal entry + flush. ok=false: refused.
+func (r *runner) onRunStart() (cacheCtx sdk.Context, ok bool) {
+	db := r.db
+	if r.viaOnRunStart {
+		res, err := precompile.OnRunStart(&vm.EVM{StateDB: db}, whoAmIInput, embeds.SmartContract_FunToken.ABI, 10_000_000)
+		if err != nil {
+			r.obs.LimitErrs++
+			return cacheCtx, false
+		}
+		return res.CacheCtx, true
+	}
+	cacheCtx, je := db.CacheCtxForPrecompile()
+	if err := db.SavePrecompileCalledJournalChange(je); err != nil {
+		r.obs.LimitErrs++
+		return cacheCtx, false
+	}
+	if err := db.CommitCacheCtx(); err != nil {
+		r.obs.CommitErr = "cache: " + err.Error()
+		return cacheCtx, false
+	}
+	return cacheCtx, true
 }
 
 func (r *runner) bankCtx() sdk.Context {
@@ -250,14 +285,8 @@ func (r *runner) exec(ops []op) {
 			}
 		case "pc":
 			snap := db.Snapshot() // evm.Call
-			cacheCtx, je := db.CacheCtxForPrecompile()
-			if err := db.SavePrecompileCalledJournalChange(je); err != nil {
-				r.obs.LimitErrs++
-				db.RevertToSnapshot(snap)
-				break
-			}
-			if err := db.CommitCacheCtx(); err != nil {
-				r.obs.CommitErr = "cache: " + err.Error()
+			cacheCtx, ok := r.onRunStart()
+			if !ok {
 				db.RevertToSnapshot(snap)
 				break
 			}
@@ -276,7 +305,7 @@ func (r *runner) exec(ops []op) {
 	}
 }
 
-func runCase(deps *evmtest.TestDeps, in c04Input) c04Obs {
+func runCase(deps *evmtest.TestDeps, in c04Input, viaOnRunStart bool) c04Obs {
 	obs := c04Obs{Accs: [][5]int64{}, Stor: [][3]int64{}, Al: [][2]int64{}, Als: [][3]int64{}, Views: [][3]string{}}
 	deps.EvmKeeper.Bank.StateDB = nil
 	ctx, _ := deps.Ctx.CacheContext()
@@ -297,7 +326,7 @@ func runCase(deps *evmtest.TestDeps, in c04Input) c04Obs {
 		deps.EvmKeeper.SetState(ctx, addrOf(s[0]), hashOf(s[1]), hashOf(s[2]).Bytes())
 	}
 	db := deps.EvmKeeper.NewStateDB(ctx, statedb.NewEmptyTxConfig(gethcommon.Hash{}))
-	r := &runner{deps: deps, ctx: ctx, db: db, obs: &obs}
+	r := &runner{deps: deps, ctx: ctx, db: db, obs: &obs, viaOnRunStart: viaOnRunStart}
 	obs.Panic = Recover(func() {
 		r.exec(in.Script)
 		obs.Logs = len(db.Logs())
@@ -496,8 +525,17 @@ func openers() []c04Input {
 	return out
 }
 
-func TestC04(t *testing.T) {
+// TestC04 drives the StateDB API calls of OnRunStart one by one; TestC04ViaOnRunStart runs the same kind
+// of scripts (another random stream) through precompile.OnRunStart itself.
+func TestC04(t *testing.T)              { runC04(t, false) }
+func TestC04ViaOnRunStart(t *testing.T) { runC04(t, true) }
+
+func runC04(t *testing.T, viaOnRunStart bool) {
 	cfg := LoadCfg(t, 400, 6000)
+	if viaOnRunStart {
+		cfg.N = (cfg.N + 1) / 2
+		cfg.Seed = cfg.Seed*2654435761 + 97
+	}
 	em := NewEmitter(t, cfg.Out)
 	defer em.Close()
 	deps := evmtest.NewTestDeps()
@@ -518,7 +556,7 @@ func TestC04(t *testing.T) {
 		}
 	}
 	for _, in := range inputs {
-		obs := runCase(&deps, in)
-		em.Emit(in, obs, nil)
+		obs := runCase(&deps, in, viaOnRunStart)
+		em.Emit(in, obs, map[string]interface{}{"via_on_run_start": viaOnRunStart})
 	}
 }
